@@ -34,10 +34,12 @@ CONSTANTS Role,        \* "att" | "prop" | "sync"
           StartSlots,  \* slot carried by the first tick
           Lags,        \* (EstimatedCurrentSlot - ticker slot) while a tick is processed
           MaxReorgs, MaxIdx, MaxFails,
+          InitDuties,  \* TRUE: HandleInitialDuties runs before the loop starts, as in Scheduler.Start (prop, sync)
           Weaken
 
 VARIABLES slot,         \* virtual current slot = slot of the last tick (start slot before the first tick)
           started,      \* a tick has happened
+          inited,       \* HandleInitialDuties is done (or not part of this run)
           truth,        \* [Keys -> [Validators -> TruthVals \cup {Unset}]]
           nextAssign,   \* next key the beacon node will fix
           active,
@@ -45,9 +47,9 @@ VARIABLES slot,         \* virtual current slot = slot of the last tick (start s
           fetchFirst, fetchCur, fetchNext, idxChanged,   \* handler flags
           lastFetched, mvalid, hiDisp, viol,             \* monitor history
           budget, act
-vars == <<slot, started, truth, nextAssign, active, store, fetchFirst, fetchCur, fetchNext, idxChanged,
+vars == <<slot, started, inited, truth, nextAssign, active, store, fetchFirst, fetchCur, fetchNext, idxChanged,
           lastFetched, mvalid, hiDisp, viol, budget, act>>
-view == <<slot, started, truth, nextAssign, active, store, fetchFirst, fetchCur, fetchNext, idxChanged,
+view == <<slot, started, inited, truth, nextAssign, active, store, fetchFirst, fetchCur, fetchNext, idxChanged,
           lastFetched, mvalid, hiDisp, viol, budget>>
 
 Unset == -2
@@ -95,6 +97,7 @@ ShouldExec(cur, ds) == CASE Weaken = "noWindow" -> TRUE
 
 ----------------------------------------------------------------------------
 Init == /\ slot \in StartSlots /\ started = FALSE
+        /\ inited = (~InitDuties \/ Role = "att")
         /\ truth = [k \in Keys |-> [v \in Validators |-> IF k = MaxKey THEN 0 ELSE Unset]]
         /\ nextAssign = 0
         /\ active \in Actives
@@ -118,7 +121,7 @@ Assign ==
          /\ truth' = [truth EXCEPT ![nextAssign] = f]
          /\ act' = [name |-> "Assign", key |-> nextAssign, vals |-> {<<v, f[v]>> : v \in Validators}]
     /\ nextAssign' = nextAssign + 1
-    /\ UNCHANGED <<slot, started, active, store, fetchFirst, fetchCur, fetchNext, idxChanged,
+    /\ UNCHANGED <<slot, started, inited, active, store, fetchFirst, fetchCur, fetchNext, idxChanged,
                    lastFetched, mvalid, hiDisp, viol, budget>>
 
 ----------------------------------------------------------------------------
@@ -170,7 +173,7 @@ Commit(s, lag, okC, okN, h, cand, lfExec, ff, ic, fn, st, mv) ==
        /\ fetchFirst' = ff /\ idxChanged' = ic /\ fetchCur' = h.fc /\ fetchNext' = fn
        /\ hiDisp' = SetMax({hiDisp} \cup {d[1] : d \in disp})
        /\ viol' = viol \cup TickViol(s, s + lag, h, disp, lfExec)
-       /\ UNCHANGED <<nextAssign, active>>
+       /\ UNCHANGED <<nextAssign, active, inited>>
        /\ act' = [name |-> "Tick", slot |-> s, lag |-> lag, okC |-> okC, okN |-> okN,
                   fetches |-> h.log, disp |-> disp]
 
@@ -210,8 +213,22 @@ SyncTick(s, lag, okC, okN) ==
 OkDomC == IF (Role = "prop" /\ (fetchFirst \/ idxChanged)) \/ (Role # "prop" /\ fetchCur) THEN BOOLEAN ELSE {TRUE}
 OkDomN(s) == IF (Role = "att" /\ fetchNext /\ ShouldFetchNext(s)) \/ (Role = "sync" /\ fetchNext) THEN BOOLEAN ELSE {TRUE}
 
+(* HandleInitialDuties, called by Scheduler.Start before the loop: the proposer handler fetches the current epoch;
+   the sync-committee handler runs processFetching (fetchNextPeriod is still FALSE) and then sets both fetch flags *)
+InitialDuties ==
+    /\ ~inited /\ ~AssignPending /\ inited' = TRUE
+    /\ \E okC \in BOOLEAN :
+         LET k == KeyOf(slot)
+             h == FetchKey(H0, k, okC)
+         IN /\ h.fails <= budget.fail
+            /\ budget' = [budget EXCEPT !.fail = @ - h.fails]
+            /\ store' = h.st /\ lastFetched' = h.lf /\ mvalid' = h.mv
+            /\ fetchCur' = (Role = "sync") /\ fetchNext' = (Role = "sync")
+            /\ act' = [name |-> "InitialDuties", okC |-> okC, fetches |-> h.log]
+    /\ UNCHANGED <<slot, started, truth, nextAssign, active, fetchFirst, idxChanged, hiDisp, viol>>
+
 Tick ==
-    /\ ~AssignPending
+    /\ ~AssignPending /\ inited
     /\ NextTickSlot <= MaxSlot
     /\ \E lag \in Lags, okC \in OkDomC, okN \in OkDomN(NextTickSlot) :
          /\ NextTickSlot + lag >= 0
@@ -230,7 +247,7 @@ ReorgCommon(kind, tk, c) ==
     /\ budget.reorg > 0 /\ budget' = [budget EXCEPT !.reorg = @ - 1]
     /\ truth' = [truth EXCEPT ![tk][c.v] = c.t]
     /\ act' = [name |-> "Reorg", kind |-> kind, slot |-> slot, key |-> tk, v |-> c.v, t |-> c.t]
-    /\ UNCHANGED <<slot, started, nextAssign, active, idxChanged, lastFetched, hiDisp, viol>>
+    /\ UNCHANGED <<slot, started, inited, nextAssign, active, idxChanged, lastFetched, hiDisp, viol>>
 
 AttReorg(kind) ==
     LET e == EpochOf(slot)
@@ -264,13 +281,13 @@ SyncReorg ==      \* only Current is acted upon
          /\ mvalid' = mvalid \ {p + 1}
          /\ UNCHANGED <<fetchFirst, fetchCur>>
 
-Reorg == /\ ~AssignPending
+Reorg == /\ ~AssignPending /\ inited
          /\ \/ Role = "att" /\ (AttReorg("prev") \/ AttReorg("cur"))
             \/ Role = "prop" /\ PropReorg
             \/ Role = "sync" /\ SyncReorg
 
 IndicesChange ==
-    /\ ~AssignPending
+    /\ ~AssignPending /\ inited
     /\ budget.idx > 0 /\ budget' = [budget EXCEPT !.idx = @ - 1]
     /\ LET k == KeyOf(slot) IN
        \E na \in Actives :
@@ -289,9 +306,9 @@ IndicesChange ==
                /\ fetchCur' = TRUE
                /\ fetchNext' = IF ShouldFetchNextPeriod(slot) THEN TRUE ELSE fetchNext
                /\ UNCHANGED <<idxChanged, store>>
-    /\ UNCHANGED <<slot, started, truth, nextAssign, fetchFirst, lastFetched, hiDisp, viol>>
+    /\ UNCHANGED <<slot, started, inited, truth, nextAssign, fetchFirst, lastFetched, hiDisp, viol>>
 
-Next == Assign \/ Tick \/ Reorg \/ IndicesChange
+Next == Assign \/ InitialDuties \/ Tick \/ Reorg \/ IndicesChange
 Spec == Init /\ [][Next]_vars
 
 ----------------------------------------------------------------------------
